@@ -102,6 +102,12 @@ func (df *DataFrame) SortValues(by []string, ascending ...bool) (*DataFrame, err
 		isAscending = ascending[0]
 	}
 
+	for _, name := range by {
+		if _, exists := df.Columns[name]; !exists {
+			return NewDataFrame(), fmt.Errorf("column '%s' does not exist", name)
+		}
+	}
+
 	// we create a new DataFrame to copy the data into for mutilation
 	sortedDf := NewDataFrame()
 	for name, col := range df.Columns {
